@@ -184,7 +184,9 @@ fn client_main(sh: Arc<Shared>, me: usize, start: usize, mut saved: Vec<Arc<Buil
     let h = simhooks::handler();
     {
         let sh2 = sh.clone();
-        *h.yielder.borrow_mut() = Some(Rc::new(move || sh2.sched.point(me, true)));
+        if std::env::var("SIM_CALL_GRANULARITY").is_err() {
+            *h.yielder.borrow_mut() = Some(Rc::new(move || sh2.sched.point(me, true)));
+        }
     }
     h.no_shortcut.set(false);
     h.no_early.set(false);
@@ -546,9 +548,10 @@ impl World for C12World {
         // operands live in the simulated heap too: their addresses are part of the world
         let pool: Vec<Arc<Built>> = heap::with_policy(Policy::CANON, || self.operands.iter().map(|o| Arc::new(Built::new(o.clone()))).collect());
         let expects = self.expectations(&pool, st);
+        let call_granularity = std::env::var("SIM_CALL_GRANULARITY").is_ok();
         let mode = match &self.schedule {
             Some(list) => Mode::Explicit { list: list.clone(), pos: 0 },
-            None => Mode::Seeded { rng: Rng(self.sched_seed), yield16: self.yield16 },
+            None => Mode::Seeded { rng: Rng(self.sched_seed), yield16: if call_granularity { 0 } else { self.yield16 } },
         };
         let n = self.clients.len();
         let sh = Arc::new(Shared {
@@ -561,10 +564,15 @@ impl World for C12World {
             let jh = std::thread::Builder::new().stack_size(4 << 20).spawn(move || client_main(sh2, me, 0, Vec::new(), true)).expect("spawn client");
             sh.handles.lock().unwrap().push(jh);
         }
-        let ok = sh.sched.run(Duration::from_secs(60));
+        let ok = sh.sched.run(Duration::from_secs(15));
         if !ok {
-            println!("HARNESS-ERROR stalled: a simulated client blocks on something the simulator does not own");
-            std::process::exit(2);
+            // A client blocks on something the simulator does not own (e.g. a lock that another, parked client
+            // holds across a sweep event). The blocked threads cannot be recovered; the parent restarts the batch
+            // at call granularity (no scheduling points inside a call), where such a lock is never contended.
+            println!("STALLED: a simulated client blocks on something the simulator does not own");
+            use std::io::Write;
+            let _ = std::io::stdout().flush();
+            std::process::exit(4);
         }
         loop {
             let jh = sh.handles.lock().unwrap_or_else(|e| e.into_inner()).pop();
